@@ -689,16 +689,32 @@ func (g *c19CBGen) callN(name string, n, depth int) string {
 
 var c19CBNames = []string{"f", "g", "h", "cb_1", "_u"}
 
+// names of builtins (path-tracked ones first), registered only with arities no builtin of that name has (5 and more):
+// a registered function is known by name AND arity, so these are ordinary custom functions
+var c19CBBuiltinNames = []string{"getpath", "_index", "_slice", "getpath", "setpath", "paths", "path", "error", "select", "first", "input", "_break", "debug", "limit", "_modify", "delpaths", "empty", "recurse"}
+
 func c19GenRegs(r *rand.Rand) []c19Reg {
 	var regs []c19Reg
 	nnames := 1 + r.IntN(2)
 	perm := r.Perm(len(c19CBNames))
 	for i := 0; i < nnames; i++ {
 		name := c19CBNames[perm[i]]
+		like := r.IntN(5) == 0
+		if like {
+			name = c19CBBuiltinNames[r.IntN(len(c19CBBuiltinNames))]
+			for _, g := range regs {
+				if g.Name == name { // one name is either a plain or an iterator function
+					name, like = c19CBNames[perm[i]], false
+				}
+			}
+		}
 		iter := r.IntN(3) == 0
 		for j, k := 0, 1+r.IntN(3); j < k; j++ {
 			lo := []int{0, 0, 0, 1, 1, 1, 2, 2, 3, 5, 10, 29, 30}[r.IntN(13)]
 			span := []int{0, 0, 1, 1, 2, 3, 5, 30}[r.IntN(8)]
+			if like {
+				lo, span = 5+r.IntN(3), r.IntN(2)
+			}
 			hi := min(30, lo+span)
 			beh := c19PlainBehs[r.IntN(len(c19PlainBehs))]
 			if iter {
